@@ -48,6 +48,8 @@ class Exec:
             self.count("skipped")
             return None
         trace, exc = run_traced(lambda: self.world.apply(op), fault)
+        for name in [n for n in self.world.ftasks if n not in self.model.ftasks]:
+            del self.world.ftasks[name]       # removed implicitly by an assignment to the reference it was registered under
         if isinstance(exc, SimStall):
             raise exc
         st = Step()
